@@ -111,7 +111,7 @@ def parseImplRR (s : String) : Option (String × Nat × Nat × Nat × String) :=
 of this (owner, type) must be distinct candidates of positive weight, exactly
 `min(max, #positive)` of them. If it holds, the implementation's choice is echoed (so the rendered
 sections coincide); otherwise the full candidate list is rendered, which makes the mismatch visible. -/
-def renderGroup (g : AddrGroup) (implSection : List String) : List String :=
+def renderGroup (g : AddrGroup) (implSection : List String) (mult : Nat := 1) : List String :=
   let nameHex := Bytes.hex (Name.toLower g.name)
   let positives := g.cands.filter (·.weight > 0)
   let expectCount := min g.max positives.length
@@ -121,13 +121,17 @@ def renderGroup (g : AddrGroup) (implSection : List String) : List String :=
     | none => false
   let candStrs := positives.map fun c => renderRR g.name g.type g.cls c.ttl c.addr
   -- drawn without repetition: a sub-multiset of the positive-weight candidates
-  let okMembers := mine.all fun s => mine.count s ≤ candStrs.count s
-  if okMembers ∧ mine.length = expectCount then mine
+  -- (a group emitted `mult` times - the same target reached twice - is drawn `mult` times)
+  let okMembers := mine.all fun s => mine.count s ≤ mult * candStrs.count s
+  if okMembers ∧ mine.length = mult * expectCount then mine
   else (g.cands.map fun c => renderRR g.name g.type g.cls c.ttl c.addr ++ s!"(w={c.weight},max={g.max})")
 
 def renderSection (rrs : List Serve.RR) (groups : List AddrGroup) (implSection : List String) : String :=
   let a := rrs.map fun r => renderRR r.name r.type r.cls r.ttl r.rdata
-  let b := groups.flatMap fun g => renderGroup g implSection
+  -- groups are identified up to the letter case of their owner (the rendering lower-cases it)
+  let canon (g : AddrGroup) : AddrGroup := { g with name := Name.toLower g.name }
+  let cgroups := groups.map canon
+  let b := cgroups.eraseDups.flatMap fun g => renderGroup g implSection (cgroups.count g)
   "[" ++ "|".intercalate (sortStrs (a ++ b)) ++ "]"
 
 /-- split `[a|b|c]` -/
@@ -235,6 +239,14 @@ def zoneOf (lines : List Bytes) : Option Spec.Zone :=
     { recs := dec.filterMap (·.1), maps := dec.filterMap (·.2),
       subnets := subs.map fun s => { mapID := s.lmap, net := ipToNat s.ip, ones := s.ones, loc := s.lo.getD [0, 0] } }
 
+/-- `SoaHasNs` of the well-formedness predicate (DESIGN section 6, `Proofs/ServeRefine.lean`): the
+owner of an SOA also owns an NS visible wherever the SOA is. Files without it are outside the
+statement's "well-formed data files" and get no Spec verdict (implementation = model and the
+pairwise agreement of the storage configurations are still checked). -/
+def soaHasNs (z : Spec.Zone) : Bool :=
+  z.recs.all fun r => r.type ≠ 6 ∨ r.wild ∨
+    z.recs.any fun r' => r'.owner = r.owner ∧ ¬ r'.wild ∧ r'.type = 2 ∧ (r'.loc = [0, 0] ∨ r'.loc = r.loc)
+
 def renderSpecRR (r : Spec.OutRR) : String :=
   s!"{Bytes.hex (Name.pack r.owner)}/{r.type}/{r.cls}/{r.ttl}/{Bytes.hex r.rdata}"
 
@@ -269,6 +281,15 @@ def specOne (z : Spec.Zone) (q : QTok) (implResult : String) : String :=
       s!"rc={a.rcode},aa={aa},id=ok,q=same,an={sec a.answer a.answerAddrs ian},ns={sec a.authority [] []},"
         ++ s!"ar={sec [] a.additional iar},{opt}"
 
+/-- drop repeated entries of the additional section of an implementation result -/
+def dedupAr (r : String) : String :=
+  match r.splitOn ",ar=[" with
+  | [a, b] =>
+    match b.splitOn "]" with
+    | body :: rest => a ++ ",ar=[" ++ "|".intercalate ((body.splitOn "|").eraseDups) ++ "]" ++ "]".intercalate rest
+    | [] => r
+  | _ => r
+
 def noSvcb : SvcbFn := fun _ => none
 
 /-- the `serve`/`servecs` op: model output and Spec verdict -/
@@ -298,13 +319,17 @@ def serveOp (withOpt : Bool) (ls qs : String) (impl : Option String) : String ×
       | none, _ => "-"
       | some _, none => "-"
       | some _, some z =>
+        if ¬ soaHasNs z then "-" else
         let bad := backends.findSome? fun (name, _) =>
           match implParts.find? (·.startsWith (name ++ ":")) with
           | none => none
           | some p =>
             let rs := ((p.drop (name.length + 1)).toString).splitOn "~"
             if rs = ["compile-error"] then none
-            else (queries.zipIdx.zip rs).findSome? fun ((q, i), r) =>
+            else (queries.zipIdx.zip rs).findSome? fun ((q, i), r0) =>
+              -- sections are compared as RR sets (the property's observation point): a repeated
+              -- additional record (two MX targets differing only in case) is the same set
+              let r := dedupAr r0
               let want := specOne z q r
               if want = "rc=16" then (if r.startsWith "rc=16," then none else some s!"FAIL:{name}-q{i}-badvers")
               else if dropOpt (stripExtra r) = dropOpt want then none
